@@ -46,6 +46,10 @@ CHECKS = {
          "All 3,652,425 dates are rendered (with a leap second among the times) and must have the stated form, the right weekday and reparse to the same second and offset; the input product enumerates every combination of the obsolete and current syntax options on base dates chosen so that 2-, 3-, 4- and 5-digit year forms are all expressible; a contradicting weekday must be rejected.",
          "Trusted: the generator (string and denoted value are built together from RefCal fields). Strings outside the generator are left to C15.",
          "DESIGN.md §4 C11"),
+ 'C12': ("complete product of every documented specifier x padding modifier x every day of the year alphabet (thorough: every representable date) x boundary times x every second of offset, rendered by the real formatter and compared cell by cell with a reference renderer transcribed from the documentation table; enumeration of unknown specifiers / misplaced modifiers / missing fields that must fail; all 3-item concatenations",
+         "Each specifier cell is rendered for every enumerated value and compared with RefFmt (whose 50 example cells from the documentation are asserted at start-up); week numbering, ISO year, signed and 5-6 digit years, leap seconds and offsets with seconds are all inside the enumerated product; formatting must fail (not print something else) for everything outside the table.",
+         "Trusted: RefFmt (transcription of the documented table). Cells the documentation leaves open are compared as 'same sign and digits, any padding' and listed in the evidence.",
+         "DESIGN.md §4 C12"),
  'C17': ("complete small scope (every stamp x every span 1..=40 ns x 3 operations), complete product of boundary stamps x span alphabet x offsets with a second application (idempotence), and all 65,536 digit counts x nanosecond lattice, against i128 floor arithmetic",
          "All sign/tie/multiple combinations occur in the exhaustively enumerated small scope; boundary products cover the 64-bit nanosecond window ends, both date range ends, spans around i64::MAX, zero/negative/inexpressible spans and the wall-clock basis for offsets; each successful result is re-rounded (depth 2) to show idempotence.",
          "Trusted: i128 floor arithmetic; RefLeapTime for leap-second operands of the sub-second operations. The RoundingError variant is not judged.",
